@@ -246,6 +246,7 @@ func C16(cfg Cfg) int {
 		c.Close()
 	}
 	c16Outsider(run, cfg)
+	c16Concurrent(run, cfg)
 	if run.Get("share_ownership_checks") == 0 || run.Get("generations_completed_after_rogue_call") == 0 {
 		run.Inconclusive("nothing was observed")
 	}
@@ -320,5 +321,89 @@ func c16Outsider(run *evid.Run, cfg Cfg) {
 				}
 			}
 		}
+	}
+}
+
+// c16Concurrent has two participants deliver their contributions to the third at the same moment (a start barrier
+// releases both), through the receiver handler as the gRPC server would call it: each reply must carry the share
+// computed for the identifier of the caller it answers, never the other caller's.
+func c16Concurrent(run *evid.Run, cfg Cfg) {
+	ids := idSet("small", 3)
+	c, err := rig.NewCluster(rig.ClusterOpts{Dir: cfg.Dir("c16-concurrent"), IDs: ids})
+	if err != nil {
+		run.Inconclusive(err.Error())
+		return
+	}
+	defer c.Close()
+	rounds := 30
+	if cfg.Thorough() {
+		rounds = 300
+	}
+	type reply struct {
+		caller uint64
+		res    *pb.ContributeResponse
+		err    error
+	}
+	for round := 0; round < rounds && run.NumViolations() <= 5; round++ {
+		target := ids[round%3]
+		var callers []uint64
+		for _, id := range ids {
+			if id != target {
+				callers = append(callers, id)
+			}
+		}
+		g := &manualGen{c: c, ids: ids, account: fmt.Sprintf("D/c16c-%d", round), t: 2, as: c.Endpoint(ids[0]).Name}
+		if err := g.reach("prepared"); err != nil {
+			run.Inconclusive(fmt.Sprintf("cannot reach state prepared: %v", err))
+			return
+		}
+		start := make(chan struct{})
+		out := make(chan reply, len(callers))
+		for _, x := range callers {
+			go func(x uint64) {
+				sec, vv := fakeContribution(2, target)
+				<-start
+				var r reply
+				r.caller = x
+				if perr := rig.Safely(func() error {
+					r.res, r.err = c.Inst[target].Stack.ReceiverH.Contribute(rig.PeerCtx(c.Endpoint(x).Name), &pb.ContributeRequest{Account: g.account, Secret: sec, VerificationVector: vv})
+					return nil
+				}); perr != nil {
+					r.res, r.err = nil, perr
+				}
+				out <- r
+			}(x)
+		}
+		close(start)
+		for range callers {
+			r := <-out
+			run.Eval(1)
+			run.Count("concurrent_contributions", 1)
+			run.Distinct(fmt.Sprintf("concurrent contribution: refused=%v share-bytes=%d", r.err != nil, len(r.res.GetSecret())))
+			if r.err != nil || len(r.res.GetSecret()) == 0 {
+				continue
+			}
+			var sk bls.SecretKey
+			if sk.Deserialize(r.res.GetSecret()) != nil || sk.IsZero() {
+				continue
+			}
+			pubShare := sk.GetPublicKey().Serialize()
+			run.Count("concurrent_contributions_answered_with_a_share", 1)
+			for _, id := range ids {
+				if id == r.caller {
+					continue
+				}
+				if ev, err := oracle.EvalVVec(r.res.GetVerificationVector(), id); err == nil && bytes.Equal(ev, pubShare) {
+					run.Violate(fmt.Sprintf("participant %d answered the contribution of peer %d with the secret share computed for identifier %d (two peers contributing at once)", target, r.caller, id),
+						map[string]any{"target": target, "caller": r.caller, "share_of": id, "round": round})
+				}
+			}
+		}
+		for _, p := range ids {
+			_, _ = c.Inst[p].Stack.ReceiverH.Abort(rig.PeerCtx(g.as), &pb.AbortRequest{Account: g.account})
+		}
+	}
+	if run.Get("concurrent_contributions_answered_with_a_share") == 0 {
+		run.Inconclusive("no concurrent contribution was answered with a share")
 	}
 }
